@@ -509,7 +509,15 @@ def rule_flow_lifetime(ctx):
     _ttl.cache_ttls(ctx, ctx.program, "R5", ("huginn_net_http",), 1)
 
 
+def rule_capture_loops(ctx):
+    """every request / response of the trace is looked at: the HTTP analyzer's capture loops end only with the source, the cancel
+    signal or a closed result channel - not with a packet the analyzer rejects (shared rule _workers.capture_loop_exits)"""
+    from . import _workers as W
+    W.capture_loop_exits(ctx, ctx.program, "W.R7")
+
+
 def run(ctx):
+    rule_capture_loops(ctx)
     rule_flow_lifetime(ctx)
     rule_twins(ctx)
     rule_shared(ctx)
